@@ -113,9 +113,12 @@ def c08_4(rep, ix):
     sites = wrap_sites(fn)
     slots = {}
     extracted = set()
+    kw_container = None
     for a in walk_shallow(fn):
         if isinstance(a, ast.Assign) and isinstance(a.targets[0], ast.Tuple) and "_get_arguments(" in u(a.value):
             extracted |= {u(x) for x in a.targets[0].elts}
+            if len(a.targets[0].elts) == 2:
+                kw_container = u(a.targets[0].elts[1])            # (positional values, keyword values)
     if not extracted:
         raise Inconclusive("exitStatement: unpacking of _get_arguments not recognised")
     for st in sites:
@@ -132,6 +135,11 @@ def c08_4(rep, ix):
         elif it == "%s.items()" % cont:
             slot, var = "keyword", u(l.target.elts[1])
             keyok = u(st.targets[0].slice) == u(l.target.elts[0])
+        elif it in (cont, "%s.keys()" % cont, "list(%s)" % cont) and isinstance(l.target, ast.Name) and l.body and isinstance(l.body[0], ast.Assign) and isinstance(l.body[0].targets[0], ast.Name) \
+                and " ".join(u(l.body[0].value).split()) == "%s[%s]" % (cont, l.target.id) and cont == kw_container:
+            # keys iterated, value looked up first: `for k in op_kwargs: v = op_kwargs[k]`
+            slot, var = "keyword", l.body[0].targets[0].id
+            keyok = u(st.targets[0].slice) == l.target.id
         elif cont not in extracted:
             # a transform kept in some other container: the object that reaches the operation is no longer built at the point of wrapping
             rep.bad(R, ix.site(f, st), "a RegRefTransform is constructed only as the replacement of the argument it wraps", "`%s` keeps the transform in `%s` (cached / shared object)" % (
@@ -252,13 +260,27 @@ def c08_5(rep, ix):
 
 
 def in_param_array_branch(fn, st):
-    from ..py.guards import path_to
-    p = path_to(fn.body, st)
-    for (stmts, i, field) in p or []:
-        s = stmts[i]
-        if isinstance(s, ast.If) and field == "body" and "len(parameters) == 1" in u(s.test):
-            return True
-    return False
+    """st is reachable exactly in the whole-array-parameter case: no plain element and exactly one parameter (decided on the four models of
+    (array is empty, number of parameters is one), whatever way the test is written)"""
+    res = {}
+    for empty in (True, False):
+        for one in (True, False):
+            def atom(node, empty=empty, one=one):
+                t = " ".join(u(node).split())
+                if t == "final_value.size":
+                    return 0 if empty else 5
+                if t == "len(parameters)":
+                    return 1 if one else 2
+                if t in ("len(value)",):
+                    return 0 if empty else 5
+                if t == "parameters":
+                    return ("P",) if one else ("P", "Q")
+                return AEval.NO
+            try:
+                res[(empty, one)] = Reach(fn, st).may_reach(atom)
+            except Exception:
+                return False
+    return res == {(True, True): True, (True, False): False, (False, True): False, (False, False): False}
 
 
 def guarded_by_ptype(fn, st):
